@@ -31,6 +31,7 @@ EXPLANATION = (
     " (R14) the MRO-walking collectors of @check / @dataframe_check / @parser methods record a name as seen for every attribute (not only behind the isinstance(info, <Kind>Info) filter), so a subclass attribute of another kind hides the parent's method as attribute lookup does."
     ' (R15) in the Config-extras conversion (the function calling getattr(Check, name)(*args, **kwargs)) the value is splatted positionally exactly under isinstance(value, tuple) and as keywords exactly under isinstance(value, dict).'
     ' (R16) in the pandas and polars column builders the raw annotation is handed to Engine.dtype only on paths where annotation.metadata is empty (path condition), so the parameters of Annotated[dtype, *params] are never dropped by resolving the annotation through its origin.'
+    ' (R17) the function that turns a Config class into schema options enumerates it through attribute lookup (MRO walk / dir / getmembers), not through vars(config); today it uses vars(config) (known finding).'
 )
 LEVEL_RULE = "one obligation per twin pair / config option / dispatch key / field attribute / write site"
 FLOORS = {"R1": 4, "R2": 12, "R3": 16, "R4": 14, "R5": 1, "R6": 1, "R7": 1, "R8": 1, "R9": 1, "R10": 1, "R11": 2, "R12": 3}
@@ -740,6 +741,32 @@ def r16_annotated_parameters_before_raw_resolution(ctx):
         raise AnalysisError(f"model column builders: resolutions of the raw annotation found: {per_module}")
 
 
+def r17_config_options_read_through_lookup(ctx):
+    """`Model.Config.strict` is whatever attribute lookup finds - also an option inherited from a plain base class of the
+    Config (a shared settings mixin) or from another model's Config.  The collector that turns a Config into schema options
+    therefore has to enumerate the Config through its MRO (`dir`, `inspect.getmembers`, a walk over `__mro__`); `vars(config)`
+    sees the class's own namespace only, and the defaults of BaseConfig then shadow every inherited option:
+    `class Config(StrictCoercing): ordered = True` builds a schema with strict=False, coerce=False."""
+    m = ctx.ix.module("pandera/api/dataframe/model.py")
+    n = 0
+    for f in m.all_functions:
+        if "config" not in f.params or "extract" not in f.name:
+            continue
+        own_only = [c for c in calls_in(f.node) if isinstance(c.func, ast.Name) and c.func.id == "vars" and c.args and txt(c.args[0]) == "config"] + \
+                   [x for x in ast.walk(f.node) if isinstance(x, ast.Attribute) and x.attr == "__dict__" and txt(x.value) == "config"]
+        through_mro = [x for x in ast.walk(f.node) if (isinstance(x, ast.Attribute) and x.attr in ("__mro__",)) or
+                       (isinstance(x, ast.Call) and callee_last(x) in ("getmro", "getmembers", "dir"))]
+        n += 1
+        ctx.touched(f)
+        ok = bool(through_mro) or not own_only
+        ctx.ob("R17", f, f"{f.short}: the options of a Config are enumerated through attribute lookup (its MRO)", ok,
+               "walks the MRO" if ok else
+               f"`{txt(own_only[0])}` enumerates the Config's own namespace only: options inherited from a plain base class of the Config (or from another model's Config) "
+               "are visible as Model.Config.strict but never reach to_schema() - the model accepts frames that the equivalent DataFrameSchema rejects", f.loc(own_only[0]))
+    if n < 1:
+        raise AnalysisError("model.py: the Config option extractor not found")
+
+
 def run(ctx):
     from ..defassign import check_modules
     check_modules(ctx, "R8", ('pandera/api/dataframe/model.py', 'pandera/api/dataframe/model_components.py', 'pandera/api/pandas/model.py', 'pandera/api/polars/model.py', 'pandera/api/base/model.py', 'pandera/api/base/model_components.py'), "escapes to_schema()/validate of the model")
@@ -753,6 +780,7 @@ def run(ctx):
     r14_override_hides_whatever_its_kind(ctx)
     r15_extras_value_dispatch(ctx)
     r16_annotated_parameters_before_raw_resolution(ctx)
+    r17_config_options_read_through_lookup(ctx)
     r1_twins(ctx)
     r2_config(ctx)
     r3_dispatch(ctx)
